@@ -347,6 +347,7 @@ def run_session(mixname, legacy, seq):
     mix = MIXES.get(mixname) or WEBHOOK_MIX
     s = Session(mixname, mix, legacy)
     pending = []
+    max_live = 0
     try:
         trace = []
         for i, op in enumerate(seq):
@@ -355,9 +356,15 @@ def run_session(mixname, legacy, seq):
             exp, obs = s.apply(op)
             trace.append((op, obs))
             live = s.m.live()
+            max_live = max(max_live, len(live))
             dead_runs = [o for o in obs if o[0] not in live and o[2] != "shutdown"]
             if dead_runs:
-                return {"kind": "run-of-dead-generation", "step": i, "op": op, "expected": exp, "observed": obs}, trace, s.m, None
+                kind = "run-of-dead-generation"
+                if "service" in mix[1] and max_live > 1 and all(o[1] == "service" for o in dead_runs):
+                    # the recorded C12 finding seen from here: two live functions declared the service at once, the newest
+                    # went away, and Home Assistant keeps calling it
+                    kind = "dead-service-definition-ran-after-sibling-removal"
+                return {"kind": kind, "step": i, "op": op, "expected": exp, "observed": obs}, trace, s.m, None
             if not match_runs(exp, obs):
                 kind = "missing-run" if len(obs) < len(exp) else ("extra-run" if len(obs) > len(exp) else "wrong-run")
                 return _mark(s, {"kind": kind, "step": i, "op": op, "expected": exp, "observed": obs}), trace, s.m, None
